@@ -462,8 +462,19 @@ func (c *lctx) pos(v ssa.Value, sym func(v ssa.Value) (lpos, bool)) lpos {
 			return c.pos(x.X, sym).add(c.pos(x.Y, sym))
 		}
 	case *ssa.Convert:
-		// int(int32 sz): a length read from the wire
+		// int(int32 sz): a length read from the wire. Inside the property's domain (lengths far below 2^31)
+		// widening commutes with adding a small constant: int(sz+4) = int(sz)+4.
 		e := c.expr(v).norm()
+		if (e.op == "sext" || e.op == "zext") && e.a.op == "add" {
+			x, k := e.a.a, e.a.b
+			if x.op == "const" {
+				x, k = k, x
+			}
+			if k.op == "const" && k.k < 1<<16 {
+				inner := (&bx{op: e.op, w: e.w, signed: e.signed, a: x}).norm()
+				return lpos{c: int64(k.k), syms: []*bx{inner}}
+			}
+		}
 		return lpos{syms: []*bx{e}}
 	case *ssa.Call:
 		com := x.Common()
@@ -1368,7 +1379,18 @@ func (L *layouts) streamReader(fn *ssa.Function) *rsum {
 				// length of the destination: dirtmake.Bytes(n, n) / make([]byte, n)
 				ln := &bx{op: "opaque", s: "payload length"}
 				if mk, ok := dst.(*ssa.Call); ok && len(mk.Common().Args) >= 1 {
-					ln = c.expr(mk.Common().Args[0]).norm()
+					k := 0
+					if mcal := mk.Common().StaticCallee(); mcal != nil && inRepo(mcal) {
+						// a repository allocator: which parameter is the length of what it returns
+						if kk, ok := lenParamOf(L.P, mcal); ok {
+							k = kk
+						} else {
+							k = -1
+						}
+					}
+					if k >= 0 {
+						ln = c.expr(mk.Common().Args[k]).norm()
+					}
 				} else if mk, ok := dst.(*ssa.MakeSlice); ok {
 					ln = c.expr(mk.Len).norm()
 				}
@@ -1490,4 +1512,42 @@ func readBinaryLikeArg(c *ssa.Call) int {
 	}
 	k, _ := wrapsInvoke(c.Common().StaticCallee(), "ReadBinary")
 	return k
+}
+
+// lenParamOf: every return of the repository function fn yields a byte slice
+// whose length is proved equal to fn's integer parameter k.
+func lenParamOf(P *Program, fn *ssa.Function) (int, bool) {
+	if fn == nil || fn.Blocks == nil {
+		return 0, false
+	}
+	A := newAnalysis(P)
+	fa := A.fa(fn)
+	for _, c := range callsIn(fn) {
+		if cc, ok := c.(*ssa.Call); ok {
+			fa.externalAllocFacts(cc)
+		}
+	}
+	rets := returnsOf(fn)
+	for k, p := range fn.Params {
+		if !isPlainInt(p.Type()) {
+			continue
+		}
+		n := fa.expand(p)
+		all := len(rets) > 0
+		for _, ret := range rets {
+			if len(ret.Results) == 0 {
+				all = false
+				break
+			}
+			d := fa.sliceDesc(ret.Results[0])
+			if d == nil || !fa.proveEq(d.Len, n, ret.Block()) {
+				all = false
+				break
+			}
+		}
+		if all {
+			return k, true
+		}
+	}
+	return 0, false
 }
